@@ -66,6 +66,18 @@ fn unhex_opt_str(s: &str) -> Option<Option<String>> {
 
 /// Copy into 8-aligned, leaked storage (`ProguardCache::parse` requires the alignment; the
 /// model assumes it).
+/// a leaked copy of `bytes` whose first byte lies at an address = `shift` (mod 8)
+pub fn placed_static(bytes: &[u8], shift: usize) -> &'static [u8] {
+    let shift = shift % 8;
+    let words = (bytes.len() + shift + 7) / 8 + 1;
+    let leaked: &'static mut [u64] = Box::leak(vec![0u64; words].into_boxed_slice());
+    let p = leaked.as_mut_ptr() as *mut u8;
+    unsafe {
+        std::ptr::copy_nonoverlapping(bytes.as_ptr(), p.add(shift), bytes.len());
+        std::slice::from_raw_parts(p.add(shift) as *const u8, bytes.len())
+    }
+}
+
 pub fn aligned_static(bytes: &[u8]) -> &'static [u8] {
     let words = (bytes.len() + 7) / 8;
     let v: Vec<u64> = vec![0u64; words.max(1)];
@@ -794,6 +806,22 @@ impl State {
             ["BUF", h] => {
                 let Some(b) = unhex(h) else { return bad() };
                 let st = aligned_static(&b);
+                self.buf_bytes = st;
+                self.buf = cur::parse_cache(st);
+                self.pbuf = pin::parse_cache(st);
+                match &self.buf {
+                    Ok(_) => {
+                        let w = |i: usize| u32::from_le_bytes([st[i], st[i + 1], st[i + 2], st[i + 3]]);
+                        format!("ok {} {} {} {}", w(8), w(12), w(16), w(20))
+                    }
+                    Err(e) => e.clone(),
+                }
+            }
+            // the buffer placed at an address = a (mod 8)
+            ["BUFA", a, h] => {
+                let Some(b) = unhex(h) else { return bad() };
+                let a = n!(a) % 8;
+                let st = placed_static(&b, a);
                 self.buf_bytes = st;
                 self.buf = cur::parse_cache(st);
                 self.pbuf = pin::parse_cache(st);
